@@ -84,9 +84,38 @@ def item_frame_ends(data, n_items):
     return out
 
 
+def fixed_streams():
+    """Streams every run contains whatever the seed: two versions of one record type (same name, a field appended; both
+    orders), a same-named type nested in a record field, and two types whose identifiers coincide -- the situations in
+    which a LOST descriptor frame could let later records be decoded with another descriptor."""
+    import datetime as pydt
+
+    from flow.record import GroupedRecord, RecordDescriptor
+    t0 = pydt.datetime(2021, 5, 6, 7, 8, 9, tzinfo=pydt.timezone.utc)
+    v1 = RecordDescriptor("fs/entry", [("string", "path")])
+    v2 = RecordDescriptor("fs/entry", [("string", "path"), ("string", "owner")])
+    c1 = RecordDescriptor("t/c", [("stringlist", "a"), ("string", "b")])
+    c2 = RecordDescriptor("t/c", [("string", "a"), ("string", "listb")])
+    hold = RecordDescriptor("fs/holder", [("record", "r"), ("varint", "k")])
+    a = lambda i: v1(path="/a%d" % i, _generated=t0)                      # noqa: E731
+    b = lambda i: v2(path="/b%d" % i, owner="root", _generated=t0)        # noqa: E731
+    seqs = [
+        [a(1), b(1), b(2), a(2)],
+        [b(1), a(1), a(2), b(2)],
+        [a(1), hold(r=b(1), k=1, _generated=t0), b(2)],
+        [c1(a=["x"], b="y", _generated=t0), c2(a="p", listb="q", _generated=t0), c2(a="r", listb="s", _generated=t0)],
+        [a(1), GroupedRecord("fs/grp", [b(1), a(2)]), b(2)],
+    ]
+    out = []
+    for items in seqs:
+        out.append((items, [recgen.obs_item(x) for x in items], sc.write_stream_bytes(items)))
+    return out
+
+
 def gen_streams(ctx, n):
     rnd = random.Random(ctx.seed)
-    out = []
+    out = fixed_streams()
+    n += len(out)
     tries = 0
     while len(out) < n and tries < 200:
         tries += 1
@@ -226,6 +255,28 @@ def is_subsequence(sub, full):
     return all(any(x == y for y in it) for x in sub)
 
 
+def lost_descriptor_shares_identifier(data, i):
+    """Is frame i of the stream a descriptor frame whose identifier is also the identifier of a different descriptor
+    defined by an earlier frame?"""
+    from flow.record import RecordDescriptor
+    from vf.props import c03
+    frames = c03.walk_frames(data)
+    if i >= len(frames) or frames[i][0] != "desc":
+        return False
+
+    def key(payload):
+        name, fields = payload
+        return name, tuple((t, n) for t, n in fields)
+    mine = key(frames[i][1])
+    ident = RecordDescriptor.calc_descriptor_hash(mine[0], mine[1])
+    for kind, payload in frames[:i]:
+        if kind == "desc":
+            k = key(payload)
+            if k != mine and k[0] == mine[0] and RecordDescriptor.calc_descriptor_hash(k[0], k[1]) == ident:
+                return True
+    return False
+
+
 def check_dropped_frames(ctx, items, data):
     """A write that failed completely while the application carried on: every single frame is dropped in turn.
     Whatever is yielded must be written records, in order (a record whose descriptor frame is missing must NOT be
@@ -242,6 +293,14 @@ def check_dropped_frames(ctx, items, data):
             return out, "frame %d dropped: the reader yields a non-record object" % i
         gotc = [recgen.canon(recgen.obs_item(x, True)) for x in got]
         if not is_subsequence(gotc, want):
+            if lost_descriptor_shares_identifier(data, i):
+                # the lost frame defines a descriptor whose (name, hash) identifier an EARLIER, different descriptor of the
+                # stream also has: the reader cannot tell that a definition is missing (known finding, format-inherent)
+                kf = {f["id"]: f for f in core.known_for("C04")}
+                fid = "C04-lost-descriptor-frame-coincident-identifier"
+                if fid in kf:
+                    ctx.known_finding(fid, kf[fid]["what"])
+                    continue        # (not compared with the model: its typed decoder refuses the mismatched payload)
             return out, "frame %d dropped (its write failed, writing continued): the reader yields a record that was not written: %r" % (
                 i, [repr(x)[:200] for x in got])
         out.append((d2, [recgen.obs_item(x, True) for x in got], oc == "clean", oc == "notstream"))
